@@ -129,7 +129,7 @@ package badger
 //@   invariant loop 1: !sawErr && 0 <= numKV && numKV <= 1000000000000 && 0 <= batches && batches <= 1000000000 && 0 <= pending && pending < 1000 && numKV == 1000 * batches + pending
 //@   ensures result == nil && db != nil && ctx != nil ==> pending == 0
 //@   ghost sawErr bool = false
-//@   ghostset at "if result.error != nil {": sawErr = sawErr || result.error != nil
+//@   ghostset after "result := <-ch": sawErr = sawErr || result.error != nil
 //@   ensures result == nil && db != nil && ctx != nil ==> !sawErr
 
 // The consumer loops of the range reads: a message carrying an error ends the call with that error - it
@@ -141,6 +141,6 @@ package badger
 //@   calls_havoc
 //@   modifies *
 //@   ghost sawErr bool = false
-//@   ghostset at "if result.error != nil {": sawErr = sawErr || result.error != nil
+//@   ghostset after "result := <-ch": sawErr = sawErr || result.error != nil
 //@   invariant loop 1: !sawErr
 //@   ensures result == nil && db != nil && ctx != nil ==> !sawErr
